@@ -45,6 +45,22 @@ def chunk_of(layname, prefer_quick=True):
 # n = events-per-layout knob handed to the driver (`--n`); shards = processes per bin
 
 LAYOUT_PLANS = {
+    "C06": dict(body="round", module="round", profiles=["release", "checked"],
+                n={"quick": 6000, "thorough": 40000},
+                drv_args_tier={"thorough": ["--exhaustive", "1"]},
+                rule="one event = one (layout, value) with all 23 rounding-method outcomes; values are boundary constants, structured "
+                     "patterns and integer/half-integer neighbours (k, k+-ulp, k+1/2, k+1/2+-ulp) at both ends of the range; thorough "
+                     "enumerates every value of all 8- and 16-bit layouts; a coverage cell is (layout, class(value), fraction class "
+                     "int/lo/tie/hi, which of ceil/floor/round/ties-even overflow); non-trivial = value != 0 and fraction != 0",
+                need_ops=["round"]),
+    "C07": dict(body="rem", module="rem", profiles=["release", "checked"],
+                n={"quick": 4000, "thorough": 30000},
+                drv_args_tier={"thorough": ["--exhaustive", "1"]},
+                rule="one event = one (layout, dividend, divisor) with all remainder / Euclidean forms (fixed or integer divisor); divisors "
+                     "include 0, +-1 ulp, MIN, the dividend and its negation, and partners solved so the quotient lands within 2 ulp of a "
+                     "range bound; thorough enumerates all operand pairs of the 18 eight-bit layouts; a coverage cell is (layout, op, "
+                     "class(a), class(b), quotient fits/over+/over-, remainder fits/over); non-trivial = a not in {0, 1.0} and b != 0",
+                need_ops=["rem", "rem_int", "rem_r", "rem_int_r"]),
     "C01": dict(body="arith", module="arith", profiles=["release", "checked"],
                 n={"quick": 1500, "thorough": 12000},
                 rule="one event = one (layout, op, operand pair) with all API forms of the op; operands from boundary constants, "
@@ -93,7 +109,8 @@ def plan(prop, tier, seed):
                     for s in range(shards):
                         js.append(dict(kind="pipe", body=P["body"],
                                        drv=[bin_path(prof, b), "--seed", str(seed), "--n", str(n),
-                                            "--shard", "%d/%d" % (s, shards)] + P.get("drv_args", []),
+                                            "--shard", "%d/%d" % (s, shards)] + P.get("drv_args", [])
+                                       + P.get("drv_args_tier", {}).get(tier, []),
                                        mon=[PY, MON, P["module"], prop, prof] + P.get("mon_args", []),
                                        timeout=P.get("timeout", {}).get(tier, 1800 if tier == "quick" else 7200)))
             return js
